@@ -505,6 +505,9 @@ SKIP_REVIEWED = {
     ("_add_reference_to_dependencies", "AtomicType"): "type references are not value dependencies of a field",
     ("_add_reference_to_dependencies", "Attribute"): "attribute expressions are handled by the field-reference traversal of the same function",
     ("_add_reference_to_dependencies", "FieldReference"): "the components of a field reference are recorded by the FieldReference traversal (path[0])",
+    ("_add_sibling_constant_reference_to_dependencies", "AtomicType"): "below an AtomicType are the type's name (not a field) and type arguments; a sibling named in a type argument is not an ordering edge (DESIGN section 6, not claimed)",
+    ("_add_sibling_constant_reference_to_dependencies", "Attribute"): "the ordering graph ignores attributes, like the field-reference traversal next to it",
+    ("_add_sibling_constant_reference_to_dependencies", "FieldReference"): "components of field references are the FieldReference traversal's edges (path[0])",
     ("_add_field_reference_to_dependencies", "Attribute"): "references inside attributes are not read when a field is located or read",
     ("_add_resolved_field_reference_to_dependencies", "Attribute"): "same traversal as its twin, after the later path components are resolved: references inside attributes are not read when a field is located or read",
     ("compute_constraints_of_expression", "Expression"): "the action recurses into its operands",
